@@ -139,9 +139,12 @@ def unit_h1(cfg):
         nres = len(want_buf)
         defs = set(d.get_id() for d in r["defs"])
         H2 = [c for c in H if c.get_id() not in defs]
-        want = kharness.align_leaves(u, H2, want_buf, r["defs"], on_cex=_cex(ctx, "leaf-arguments"))
-        u.prove("accumulators", z3.And(*[got[i] == want[i] for i in range(nres)]), H,
-                _cex(ctx, "accumulators"), sample=(pi == 0), abstract=True)
+        want = kharness.align_leaves(u, H2, want_buf, r["defs"])
+        ncex = len(u.r["cex"])
+        ok = u.prove("accumulators", z3.And(*[got[i] == want[i] for i in range(nres)]), H,
+                     _cex(ctx, "accumulators"), sample=(pi == 0), abstract=True)
+        if not ok and not any(c.get("reproduced") for c in u.r["cex"][ncex:]):
+            kharness.search_witness(u, H2, _cex(ctx, "leaf-arguments"))
         _prove_side(u, r["side"], H, lambda d: _cex(ctx, "side:" + d))
         # The outputs are the documented function of the accumulators: stated over
         # the *named* buffer cells (whose equality with the reference sums is the
